@@ -386,8 +386,9 @@ class Mirror:
         if depth > 40:
             raise Mirror.Raise("RecursionError")
         src = self.objs[o]
-        # item_number is not stored in the database form: it is rebuilt as the number of positional children (be6bafa)
-        nitems = sum(1 for k, _ in src.attrs if k.isdigit()) if src.kind == "coll" else src.nitems
+        # item_number is not stored in the database form: it is rebuilt as highest positional key + 1 (acffd7c),
+        # so that append after a reload never overwrites an item
+        nitems = max([int(k) + 1 for k, _ in src.attrs if k.isdigit()], default=0) if src.kind == "coll" else src.nitems
         new = MObj(src.kind, src.cls, [], nitems, False)
         self.objs.append(new)
         idx = len(self.objs) - 1
@@ -666,6 +667,9 @@ class Gen:
             if not self.dirty and (self.m.frozen_ancestors(o) or (ob.kind != "tuple" and ob.frozen)):
                 return None
             name = r.choice(ob.attrs)[0] if r.random() < 0.9 else "zz"
+            digits = [k for k, _ in ob.attrs if k.isdigit()]
+            if len(digits) >= 2 and r.random() < 0.5:
+                name = r.choice(digits[:-1])           # a middle positional item: item_number must survive a reload
             return ["del", o, name]
         if x < 0.90:
             if len(m.objs) >= 40:
@@ -803,6 +807,10 @@ def scenario_cases():
                           ["set", 8, "pos_0", ["c", 1]], ["unfreeze", 6], ["set", 8, "pos_0", ["c", 1]], ["query", 6, ["paths"]]]))
     out.append(base(tm + [["restore", 2, "database"], ["copy", 2], ["restore", 1, "shallow"], ["set", 0, "pos_1", P(3)],
                           ["query", 2, ["count"]], ["query", 3, ["count"]], ["query", 6, ["count"]], ["query", 9, ["count"]]]))
+    # delete a middle positional item, rebuild from the database form, append: nothing is overwritten (acffd7c)
+    out.append(base([["new", "coll", None, [["0", P(0)], ["1", P(1)], ["2", P(2)]], 3], ["del", 0, "1"], ["restore", 0, "database"],
+                     ["append", 1, P(3)], ["query", 1, ["paths"]], ["query", 1, ["count"]], ["append", 0, P(4)], ["query", 0, ["paths"]],
+                     ["del", 1, "3"], ["del", 1, "2"], ["restore", 1, "database"], ["append", 2, P(5)], ["query", 2, ["paths"]]]))
     # self-reference: the recursion guard truncates the walk at the loop
     out.append(base([["new", "coll", None, [["m", P(0)]], 0], ["set", 0, "q", ["r", 0]], ["set", 0, "n", P(1)], ["query", 0, ["count"]],
                      ["query", 0, ["paths"]], ["query", 0, ["info"]], ["freeze", 0], ["query", 0, ["count"]], ["copy", 0],
@@ -1190,7 +1198,7 @@ def run(ctx):
             bad_here = [m for m in regress if m.split(":")[0] in pinned[sig]]
             ctx.obligation("regression:" + sig, "regression", not bad_here,
                            "; ".join(bad_here) if bad_here else "pinned history %s answers like the reference" % ", ".join(pinned[sig]))
-        ctx.obligation("regression:all-seven-pinned", "regression", len(pinned) >= 7, "%d pinned former findings" % len(pinned))
+        ctx.obligation("regression:all-pinned", "regression", len(pinned) >= 8, "%d pinned former findings" % len(pinned))
     if os.path.exists(os.path.join(common.COQ, "C13", "Model.vo")):
         bad, log = ctx.eval_cases(HEADER, "case", "check_case", coq_cases, shard=40 if ctx.tier == "quick" else 120)
         for b in (bad or [])[:5]:
